@@ -162,10 +162,13 @@ class Eval:
                         self._bad(fn, n)
                     recv = b[1]
                 args = []
-                aa = [a for a in fn.call_args(n) if fn.nodes[a]['cls'] != 'CXXDefaultArgExpr']
+                aa = list(fn.call_args(n))
                 if len(aa) != len(g.params):
                     self._bad(fn, n)
                 for a, p in zip(aa, g.params):
+                    if fn.nodes[a]['cls'] == 'CXXDefaultArgExpr':
+                        args.append('D:%s' % p.get('name', '?'))      # a defaulted argument (memory order): an opaque value
+                        continue
                     t = self.tu.type(p['t'])
                     if t and t['ref']:
                         try:
